@@ -9,6 +9,7 @@ import (
 	"bytes"
 	"crypto/rand"
 	"crypto/rsa"
+	"crypto/sha256"
 	"fmt"
 	"io"
 	"sort"
@@ -109,7 +110,43 @@ func c20Headers(h map[string]c20Val) map[string]interface{} {
 
 // ---------------------------------------------------------------- Coq printing
 
-func c20Bytes(s string) string {
+// Terms that occur several times in one case (the encoding, the headers, the signature ...) are printed once and
+// bound with let; c20Exec wraps the case term in the bindings. Pure printing: the term denotes the same value.
+var (
+	c20Pool    []string
+	c20PoolIdx map[string]int
+)
+
+func c20Share(term string) string {
+	if len(term) < 48 {
+		return term
+	}
+	if i, ok := c20PoolIdx[term]; ok {
+		return fmt.Sprintf("s%d", i)
+	}
+	c20PoolIdx[term] = len(c20Pool)
+	c20Pool = append(c20Pool, term)
+	return fmt.Sprintf("s%d", len(c20Pool)-1)
+}
+
+func c20Exec(i c20In) vh.Out {
+	c20Pool, c20PoolIdx = nil, map[string]int{}
+	out := c20ExecRaw(i)
+	if len(c20Pool) > 0 {
+		var sb strings.Builder
+		sb.WriteString("(")
+		for k, t := range c20Pool {
+			fmt.Fprintf(&sb, "let s%d := %s in ", k, t)
+		}
+		sb.WriteString(out.Coq + ")")
+		out.Coq = sb.String()
+	}
+	return out
+}
+
+func c20Bytes(s string) string { return c20Share(c20BytesRaw(s)) }
+
+func c20BytesRaw(s string) string {
 	if len(s) == 0 {
 		return "[]"
 	}
@@ -189,7 +226,7 @@ func c20Map(m map[string]interface{}) string {
 	for i, k := range keys {
 		items[i] = "(" + c20Bytes(k) + ", " + c20HV(m[k]) + ")"
 	}
-	return "[" + strings.Join(items, "; ") + "]"
+	return c20Share("[" + strings.Join(items, "; ") + "]")
 }
 
 // ---------------------------------------------------------------- running with panic recovery and a time bound
@@ -222,12 +259,17 @@ type c20Res struct {
 	Headers map[string]interface{} `json:"headers,omitempty"`
 	Body    string                 `json:"body,omitempty"`
 	Sig     string                 `json:"sig,omitempty"`
+	EncLen  int                    `json:"enc-len,omitempty"`
+	EncSum  string                 `json:"enc-sha,omitempty"`
+	SigOK   bool                   `json:"signature-verifies,omitempty"`
+	enc     string                 // asserts.Encode of the returned assertion
+	body    string
 }
 
 func (r c20Res) coq() string {
 	switch r.Kind {
 	case "ok":
-		return "(OOk " + c20Map(r.Headers) + " " + c20Bytes(r.Body) + " " + c20Bytes(r.Sig) + ")"
+		return "(OOk " + c20Map(r.Headers) + " " + c20Bytes(r.body) + " " + c20Bytes(r.Sig) + " " + c20Bytes(r.enc) + ")"
 	case "eof":
 		return "OEof"
 	case "panic", "timeout":
@@ -250,8 +292,19 @@ func c20Call(f func() (Assertion, error)) c20Res {
 	case err != nil:
 		return c20Res{Kind: "err"}
 	}
-	_, sig := a.Signature()
-	return c20Res{Kind: "ok", Headers: a.Headers(), Body: string(a.Body()), Sig: string(sig)}
+	content, sig := a.Signature()
+	enc := string(Encode(a))
+	if enc != string(content)+"\n\n"+string(sig) {
+		panic("Encode is not content + blank line + signature")
+	}
+	body := string(a.Body())
+	if len(body) > 300 {
+		body = fmt.Sprintf("%d bytes, sha256 %x", len(body), sha256.Sum256([]byte(body)))
+	}
+	res := c20Res{Kind: "ok", Headers: a.Headers(), Body: body, Sig: string(sig), EncLen: len(enc), EncSum: fmt.Sprintf("%x", sha256.Sum256([]byte(enc))),
+		SigOK: SignatureCheck(a, c20PrivKey().PublicKey()) == nil, enc: enc}
+	res.body = string(a.Body())
+	return res
 }
 
 var c20Key PrivateKey
@@ -284,7 +337,7 @@ func c20Sign(typ string, h map[string]c20Val, body []byte) (Assertion, error) {
 
 // ---------------------------------------------------------------- exec
 
-func c20Exec(i c20In) vh.Out {
+func c20ExecRaw(i c20In) vh.Out {
 	switch i.Kind {
 	case "fmt":
 		v := i.V.iface()
@@ -325,8 +378,9 @@ func c20Exec(i c20In) vh.Out {
 		sdec := c20Call(func() (Assertion, error) { return NewDecoder(bytes.NewReader(enc)).Decode() })
 		timeout := dec.Kind == "timeout" || sdec.Kind == "timeout"
 		same := dec.Kind == "ok" && sdec.Kind == "ok"
+		verified := dec.SigOK && sdec.SigOK
 		coq := "(CCodec " + c20Map(a.Headers()) + " " + c20Bytes(string(a.Body())) + " " + c20Bytes(string(sig)) + " " + c20Bytes(string(enc)) +
-			" " + dec.coq() + " " + sdec.coq() + " " + vh.CoqBool(timeout) + ")"
+			" " + dec.coq() + " " + sdec.coq() + " " + vh.CoqBool(verified) + " " + vh.CoqBool(timeout) + ")"
 		tags := []string{"codec-" + i.Type, "codec-decoded-" + dec.Kind}
 		if i.Tag != "" {
 			tags = append(tags, i.Tag)
@@ -379,13 +433,14 @@ func c20Exec(i c20In) vh.Out {
 			}
 			_, sig := a.Signature()
 			encs = append(encs, Encode(a))
-			origs = append(origs, "("+c20Map(a.Headers())+", "+c20Bytes(string(a.Body()))+", "+c20Bytes(string(sig))+")")
+			origs = append(origs, "("+c20Map(a.Headers())+", "+c20Bytes(string(a.Body()))+", "+c20Bytes(string(sig))+", "+c20Bytes(string(Encode(a)))+")")
 		}
 		stream := c20Stream(encs)
 		d := NewDecoderStressed(&c20Chop{data: append([]byte{}, stream...), n: i.Chunk, eofData: i.EOFData}, i.Lim[0], i.Lim[1], i.Lim[2], i.Lim[3])
 		var results []c20Res
 		var items []string
 		timeout := false
+		verified := true
 		nok := 0
 		for len(results) < len(encs)+2 {
 			r := c20Call(d.Decode)
@@ -397,10 +452,11 @@ func c20Exec(i c20In) vh.Out {
 			if r.Kind != "ok" {
 				break
 			}
+			verified = verified && r.SigOK
 			nok++
 		}
-		coq := fmt.Sprintf("(CChunk (mkLim %d %d %d %d) [%s] %s %d [%s] %s)", i.Lim[0], i.Lim[1], i.Lim[2], i.Lim[3], strings.Join(origs, "; "),
-			c20Bytes(string(stream)), i.Chunk, strings.Join(items, "; "), vh.CoqBool(timeout))
+		coq := fmt.Sprintf("(CChunk (mkLim %d %d %d %d) [%s] %s %d [%s] %s %s)", i.Lim[0], i.Lim[1], i.Lim[2], i.Lim[3], strings.Join(origs, "; "),
+			c20Bytes(string(stream)), i.Chunk, strings.Join(items, "; "), vh.CoqBool(verified), vh.CoqBool(timeout))
 		tags := []string{fmt.Sprintf("chunk-decoded-%d-of-%d", nok, len(encs)), "chunk-ends-" + results[len(results)-1].Kind, fmt.Sprintf("chunk-buf-%d", i.Lim[0])}
 		if i.Tag != "" {
 			tags = append(tags, i.Tag)
@@ -754,6 +810,70 @@ func c20Boundary(r *vh.Rand, tier string) []c20In {
 	return ins
 }
 
+// c20Body is a body of exactly n bytes: lines of one letter, at most 997 bytes long
+func c20Body(n int, letter byte) []byte {
+	b := make([]byte, n)
+	for i := range b {
+		if i%998 == 997 {
+			b[i] = '\n'
+		} else {
+			b[i] = letter
+		}
+	}
+	return b
+}
+
+// assertions whose bodies are around and above the decoder's 4096-byte read window, alone and as 2nd/3rd assertion
+// of a stream, through the production decoder setup and every kind of reader
+func c20BigBodies(r *vh.Rand, tier string) []c20In {
+	var ins []c20In
+	lim := []int{defaultDecoderBufSize, MaxHeadersSize, MaxBodySize, MaxSignatureSize}
+	mk := func(n int, letter byte) c20Signed {
+		h := map[string]c20Val{"authority-id": c20S("canonical"), "primary-key": c20S("big" + r.Str("abc", 1, 2)), "note": c20S("x\ny")}
+		return c20Signed{Type: "test-only", H: h, Body: c20Body(n, letter)}
+	}
+	small := func() c20Signed {
+		typ, h, body := c20Signable(r, true)
+		return c20Signed{Type: typ, H: h, Body: body}
+	}
+	headLen := func(sg c20Signed) int {
+		a, err := c20Sign(sg.Type, sg.H, []byte("x"))
+		if err != nil {
+			panic(err)
+		}
+		return bytes.Index(Encode(a), nlnl) + 2
+	}
+	add := func(tag string, sigs ...c20Signed) {
+		c := []int{0, 0, 1, 3, 4095, 4096, 4097, r.Range(1, 9000)}[r.Intn(8)]
+		ins = append(ins, c20In{Kind: "chunk", Sigs: sigs, Lim: lim, Chunk: c, EOFData: r.Chance(1, 4), Tag: tag})
+	}
+	sizes := []int{0, 1, 3600, 3700, 3800, 3900, 4000, 4100, 4200, 4096, 5000, 9000, 70000}
+	if tier == "thorough" {
+		sizes = append(sizes, 3650, 3750, 3850, 3950, 4050, 4150, 8192, 20000, 200000, 1000000)
+	}
+	for _, n := range sizes {
+		sg := mk(n, 'b')
+		if r.Bool() {
+			add(fmt.Sprintf("chunk-body-%d", n), sg)
+		} else {
+			add(fmt.Sprintf("chunk-body-%d", n), sg, small())
+		}
+	}
+	// the body ending exactly on and around the first read window
+	for delta := -2; delta <= 2; delta++ {
+		sg := mk(1, 'c')
+		sg.Body = c20Body(defaultDecoderBufSize+delta-headLen(sg), 'c')
+		add(fmt.Sprintf("chunk-body-window%+d", delta), sg, small())
+	}
+	// large bodies later in the stream
+	add("chunk-body-second", small(), mk(5000, 'd'))
+	add("chunk-body-third", small(), small(), mk(9000, 'e'))
+	add("chunk-body-second", mk(4100, 'f'), mk(70000, 'g'))
+	add("chunk-body-third", small(), mk(3900, 'h'), mk(4300, 'i'))
+	add("chunk-body-second", small(), mk(4096, 'j'), small())
+	return ins
+}
+
 func c20Gen(r *vh.Rand, tier string, n int) []c20In {
 	if n == 0 {
 		n = 400
@@ -877,6 +997,11 @@ func c20Gen(r *vh.Rand, tier string, n int) []c20In {
 		ins = append(ins, c20In{Kind: "stream", Lim: lim, Stream: stream, Tag: tag})
 	}
 	ins = append(ins, c20Boundary(r, tier)...)
+	ins = append(ins, c20BigBodies(r, tier)...)
+	for _, n := range []int{3900, 4096, 9000} { // the same through Decode and NewDecoder side by side
+		ins = append(ins, c20In{Kind: "codec", Type: "test-only", H: map[string]c20Val{"authority-id": c20S("canonical"), "primary-key": c20S("k")},
+			Body: c20Body(n, 'z'), Tag: "codec-normalised"})
+	}
 	// random valid streams through chopped readers
 	for k := 0; k < n/12; k++ {
 		var sigs []c20Signed
